@@ -23,7 +23,7 @@ LEVEL = {
  "C14": ("theorem: acceptance iff hex_ok, effect equal to parse of decode, rejection inert; observer obs_C14 on the malformed stream and twin runs string-vs-binary (pair re-checked with extracted decode)", "8/C14"),
  "C15": ("theorems: the core state evolves independently of callbacks/user data; callbacks carry the registered id and current user data; registration / user-data calls made from inside callbacks are modelled (step_reent: conservative extension, decoding unaffected); twin runs with different observer sets and a re-entrant twin replay on the implementation", "8/C15, 17.6"),
  "C16": ("theorem: invariant tsnap_wf of all four texts over every reachable model state; observer obs_C16 on every implementation snapshot (terminator, level domain, availability, length) incl. garbage-prefilled caller storage", "8/C16"),
- "C17": ("theorem: settings getters equal settings_of (history function), setters leave decoded data untouched; observer obs_C17 on key x value sweeps", "8/C17"),
+ "C17": ("theorem: settings getters equal settings_of (history function), setters leave decoded data untouched; observer obs_C17 on key x value sweeps ; code level: the three setters of the settings translated from the sources write exactly the model's new setting and nothing else (C17_code_*)", "8/C17"),
  "C18": ("kernel-evaluated facts over the complete lookup graphs regenerated from the compiled library (totality, placeholders, widths, ISO/PTY reference tables, uniqueness)", "8/C18"),
  "C19": ("partial: projection theorem on the multi-instance model; on the implementation interleaved-vs-solo and two-process runs, static scan for writable static storage, ThreadSanitizer run with per-thread instances (search)", "8/C19"),
  "C20": ("partial: narrow-table facts; simulation theorem between the unicode and non-unicode instantiation on collision-free groups (state, non-text callbacks identical, text callbacks related one to one); heap on/off outside the model; each of the four builds is run against the model instance for its character width; cross-build comparison with the narrow-collision known finding ; code level: rdsparser_string_update_single of the non-unicode build = the model's with the narrow graph (C20_code_update_single_narrow)", "8/C20, 17.3"),
@@ -45,7 +45,7 @@ def main():
             "engine": "coq-model+correspondence",
             "level_claimed": {"category": "proof", "text": text, "design_ref": "DESIGN.md section " + ref},
             "level_note": "Coq 8.16.1 kernel (vm_compute used, native_compute not), no axioms; trusted: gen_dump.c + gcc (Gen.v = graph of compiled tables), tools/cleaf.py and tools/cmid.py + clang front end (GenLeaf.v, GenMid.v; the memory model of cmid.py: members of one struct never alias, string accessors recognised by name, callbacks as events), hand-written model tied by running extracted model (ExtrOcamlBasic only) and implementation on the same scripts, OCaml driver, C harness, generators; the theorem is about the model and reaches the code only through that tie",
-            "technique": "machine-checked proof in Coq over a Gallina model of the API (every boolean observer the check evaluates is itself a theorem of the model for every script); tie = tables regenerated from the compiled library (Gen.v) + 30 leaf functions translated from clang's typed AST on every run and proved equal to the model's (GenLeaf.v) + 33 middle-layer functions up to rdsparser_parser_process translated the same way and proved equal to the model's process on the pinned tree (GenMid.v, Properties_Mid_Cxx.v: a second tie; when a change to the sources defeats it the check records that and doubles its search for a failing input) + model/implementation correspondence on generated scripts + extracted observers evaluated on implementation traces",
+            "technique": "machine-checked proof in Coq over a Gallina model of the API (every boolean observer the check evaluates is itself a theorem of the model for every script); tie = tables regenerated from the compiled library (Gen.v) + 30 leaf functions translated from clang's typed AST on every run and proved equal to the model's (GenLeaf.v) + 36 middle-layer functions up to rdsparser_parser_process translated the same way and proved equal to the model's process on the pinned tree (GenMid.v, Properties_Mid_Cxx.v: a second tie; when a change to the sources defeats it the check records that and doubles its search for a failing input) + model/implementation correspondence on generated scripts + extracted observers evaluated on implementation traces",
         })
     man = {
         "version": 1,
